@@ -462,6 +462,23 @@ func (w *Watcher) Run(ctx context.Context) error {
 						tx, err := w.ethConn.TransactionReceipt(timeout, pLock.message.TxHash)
 						cancel()
 
+						// An error other than "not found" (a timeout, a connection problem) says nothing about
+						// the transaction. The receipt is nil in that case too, so it has to be told apart from an
+						// orphaned transaction before the check below: keep the message and retry with the next
+						// block; it is abandoned once the lookups have failed for the whole abandonment window.
+						if err != nil && err != rpc.ErrNoResult && err.Error() != "not found" {
+							pLock.lookupFailed = true
+							logger.Warn("transaction could not be fetched",
+								zap.Stringer("tx", pLock.message.TxHash),
+								zap.Stringer("blockhash", key.BlockHash),
+								zap.Stringer("emitter_address", key.EmitterAddress),
+								zap.Uint64("sequence", key.Sequence),
+								zap.Stringer("current_block", ev.Number),
+								zap.String("eth_network", w.networkName),
+								zap.Error(err))
+							continue
+						}
+
 						// If the node returns an error after waiting expectedConfirmation blocks,
 						// it means the chain reorged and the transaction was orphaned. The
 						// TransactionReceipt call is using the same websocket connection than the
